@@ -243,7 +243,8 @@ func main() {
 			"'took effect' = non-empty state diff or code OK at the delivery tap; such a transaction must verify under the harness's own ed25519/sha512-256 check of this chain's transaction context, carry the signer's pre-state nonce, advance exactly that nonce, and its bytes must be new; non-trivial = history with >=20 effective transactions and all four attack kinds",
 		Cases: func(r *evid.Run) []chainsim.Case {
 			cs := chainsim.StdCases(r.Seed, r.Pick(64, 1600), r.Pick(50, 100), []string{"default", "registry", "hostile"})
-			return chainsim.WithExtraCases(cs, r.Seed, r.Pick(4, 100), "keymanager") // key manager transactions
+			cs = chainsim.WithExtraCases(cs, r.Seed, r.Pick(4, 100), "keymanager") // key manager transactions
+			return chainsim.WithExtraCases(cs, r.Seed, r.Pick(4, 100), "vrf")      // VRF beacon backend: proof transactions
 		},
 		RunCase: runCase,
 		Floor:   10,
